@@ -3,8 +3,8 @@
 // `duration`: the real functions run as they are (no holes), on small concrete duration models with
 // symbolic frame length / speed / end times.  Bounded, never counted as proved.  Thorough tier only:
 // the greedy +-1 loop unrolled 7 times over symbolic floats costs CBMC about 12 minutes per harness.
-//@harness name=fit_small_model tier=thorough label=bounded(2-states,frame_length<=10) props=C08,C09,C01 timeout=1800
-//@harness name=create_small_model tier=thorough label=bounded(2-states,speed-in-[0.8,8]) props=C08,C01 timeout=1800
+//@harness name=fit_small_model tier=thorough label=bounded(2-states,frame_length<=10) props=C08,C09,C01 timeout=3000
+//@harness name=create_small_model tier=thorough label=bounded(2-states,speed-in-[0.8,8]) props=C08,C01 timeout=3600
 // harness (NOT REGISTERED: peak resident set above 30 GB in the last runs; its clause is covered by the modular alignment harnesses and the Verus unit) name=align_small_model tier=thorough label=bounded(3-labels,1-state,ends<=10) props=C09,C01 timeout=1800
 //@harness name=align_trailing_labels tier=thorough label=bounded(3-labels,1-state) props=C09,C01 timeout=1800
 //@harness name=fit_repeated_shrink_keeps_floor tier=quick label=bounded(3-and-4-states,concrete-values) props=C08,C01 timeout=900
